@@ -248,14 +248,18 @@ fn exec_open(toks: &[&str]) -> String {
         for _ in 0..8 { let _ = guarded(|| ShmReader::new(cpath.as_c_str()).map(|_| ())); }
         let (m1, f1) = res_counts();
         if m1 >= m0 + 4 || f1 >= f0 + 4 {
+            // in a child process: whatever is leaked (descriptors, mappings) dies with it
             let first = r1.clone();
-            let (old_soft, old_hard) = { let mut l = libc::rlimit { rlim_cur: 0, rlim_max: 0 }; unsafe { libc::getrlimit(libc::RLIMIT_NOFILE, &mut l); } (l.rlim_cur, l.rlim_max) };
-            for _ in 0..100_000 {
-                let a = match guarded(|| ShmReader::new(cpath.as_c_str()).map(|_| ())) { Ok(Ok(())) => "ok".to_string(), Ok(Err(e)) => shm_err_text(&e), Err(_) => "panic".into() };
-                if a != first { r1 = format!("{} after-many-opens", a); break; }
-            }
-            let _ = (old_soft, old_hard);
-            if r1 == first { r1 = format!("{} leak {} {}", first, m1 - m0, f1 - f0); }
+            let first2 = first.clone();
+            let cp = cpath.clone();
+            let t = crate::util::in_child(crate::util::watchdog_limit().saturating_sub(8).max(10), move || {
+                for _ in 0..100_000 {
+                    let a = match guarded(|| ShmReader::new(cp.as_c_str()).map(|_| ())) { Ok(Ok(())) => "ok".to_string(), Ok(Err(e)) => shm_err_text(&e), Err(_) => "panic".into() };
+                    if a != first2 { return format!("{} after-many-opens", a); }
+                }
+                "same".to_string()
+            });
+            r1 = if t == "same" || t == "timeout" || t.starts_with("crash") { format!("{} leak {} {}", first, m1 - m0, f1 - f0) } else { t };
         }
     }
     let p2 = path.clone();
